@@ -2,6 +2,7 @@
 Driver commands for Layer B (constraint algebra) on integer ranks.
 -/
 import Univers.Vers.Spec
+import Univers.Vers.HistoryModel
 import Univers.Driver.Util
 
 namespace Univers.Driver
@@ -80,6 +81,28 @@ def permOf (flag : String) : List (Con Int) → List (Con Int) :=
   else if flag == "rot" then (fun l => l.drop 1 ++ l.take 1)
   else id
 
+/-- one operation of a C17 history: `pp`, `pr:<perm>`, `simp:<perm>`, `val`, `inv2`, `pf<s><v>:<perm>` -/
+def parseOp (s : String) : Option (C17.Op Int) :=
+  match s.splitOn ":" with
+  | ["pp"] => some .printParse
+  | ["pr", f] => some (.permuteRebuild (permOf f))
+  | ["simp", f] => some (.simplify (permOf f))
+  | ["val"] => some .validate
+  | ["inv2"] => some .invertTwice
+  | ["pf00", f] => some (.parseFlags false false (permOf f))
+  | ["pf01", f] => some (.parseFlags false true (permOf f))
+  | ["pf10", f] => some (.parseFlags true false (permOf f))
+  | ["pf11", f] => some (.parseFlags true true (permOf f))
+  | _ => none
+
+/-- the states after every step of a history, `;`-separated; stops at the first error -/
+def histStates : List (C17.Op Int) → List (Con Int) → List String
+  | [], _ => []
+  | op :: rest, s =>
+    match C17.step intOps op s with
+    | .error e => ["err:" ++ errName e]
+    | .ok s' => ("ok:" ++ consStr s') :: histStates rest s'
+
 def versCmd : List String → Option String
   | ["contains", cs, x] => do
       let cs ← parseCons cs
@@ -111,6 +134,10 @@ def versCmd : List String → Option String
         | none => "none"
         | some r => resCons r
       pure s!"{m} {boolStr (wfSortedB cs)} {boolStr (nonVacuousB cs)}"
+  | ["hist", cs, ops] => do
+      let cs ← parseCons cs
+      let ops ← (ops.splitOn ",").mapM parseOp
+      pure (";".intercalate (histStates ops cs))
   | ["normalize", cs, ks] => do
       let cs ← parseCons cs
       let ks ← parseInts ks
